@@ -49,6 +49,11 @@ const (
 	vfC16KeyReorder = "session-store-write-reordered"
 )
 
+// vfC16IDs: the client id of a script. A client id is any UTF-8 string (MQTT 3.1.1 3.1.3.1; the
+// broker sets no narrower rule): besides the plain one, ids shaped like paths, which is what
+// multi-tenant naming schemes produce (the session store key is a prefix + the id).
+var vfC16IDs = []string{"dev1", "plant-7/gw", "a/b", "site/1/dev1", "dev1/", "/dev1", "dev 1", "d.e:v#1+"}
+
 var (
 	vfC16Filters = []string{"a", "a/b", "a/+", "a/#", "+/b", "#"}
 	vfC16Topics  = []string{"a", "a/b", "b", "b/b", "a/b/c"}
@@ -68,6 +73,7 @@ type vfC16Run struct {
 	rt  *rapid.T
 	vf  *vfCollector
 	rig *vfMqRig
+	cid string // the client id of the script
 
 	sess *vfC16Sess // model
 	live *vfMqClient
@@ -118,7 +124,7 @@ func (r *vfC16Run) dump() string {
 	for _, o := range r.olds {
 		fmt.Fprintf(&sb, "superseded %s (teardown pending; socket closed by broker: %v) session topics %v log: %s\n", o.c.Label, o.c.EOF(), o.topics, vfMqFmtEvents(o.c.Events()))
 	}
-	if t, ok := r.rig.store.sessionTopics(vfC16CID); ok {
+	if t, ok := r.rig.store.sessionTopics(r.cid); ok {
 		fmt.Fprintf(&sb, "stored record topics: %v\n", t)
 	} else {
 		sb.WriteString("stored record: none\n")
@@ -198,7 +204,7 @@ func (r *vfC16Run) connect(clean bool, takeover bool) {
 	label := fmt.Sprintf("conn%d", len(r.rig.clients)+1)
 	var oldBroker *Client
 	if takeover {
-		oldBroker = r.rig.registered(vfC16CID)
+		oldBroker = r.rig.registered(r.cid)
 	}
 	var c *vfMqClient
 	var err error
@@ -216,7 +222,7 @@ func (r *vfC16Run) connect(clean bool, takeover bool) {
 	if err != nil {
 		r.inconclusive("dial", err)
 	}
-	code, err := c.Connect(vfC16CID, clean)
+	code, err := c.Connect(r.cid, clean)
 	if err != nil || code != packets.Accepted {
 		r.inconclusive("connect", fmt.Errorf("code=%d err=%v", code, err))
 	}
@@ -433,7 +439,7 @@ func (r *vfC16Run) stepFailedConnect() {
 		r.inconclusive("dial", err)
 	}
 	fc.FailWrites()
-	if err := c.write(vfMqConnectPacket(vfC16CID, clean)); err != nil {
+	if err := c.write(vfMqConnectPacket(r.cid, clean)); err != nil {
 		r.inconclusive("write connect", err)
 	}
 	select {
@@ -451,7 +457,7 @@ func (r *vfC16Run) stepFailedConnect() {
 	} else if r.sess == nil {
 		r.sess = &vfC16Sess{clean: false, topics: map[string]byte{}}
 	}
-	r.deadRegistered = r.rig.registered(vfC16CID) != nil
+	r.deadRegistered = r.rig.registered(r.cid) != nil
 }
 
 // stepWriteFailure: the broker's writes to the live connection start failing (peer vanished).
@@ -476,7 +482,7 @@ func (r *vfC16Run) stepWriteFailure() {
 	if err := r.rig.Quiesce(); err != nil {
 		r.inconclusive("quiesce", err)
 	}
-	bc := r.rig.registered(vfC16CID)
+	bc := r.rig.registered(r.cid)
 	fc.FailWrites()
 	c := r.live
 	if variant == "ping" {
@@ -511,7 +517,7 @@ func (r *vfC16Run) stepWriteFailure() {
 	if r.sess != nil && r.sess.clean {
 		r.sess = nil
 	}
-	r.deadRegistered = r.rig.registered(vfC16CID) != nil
+	r.deadRegistered = r.rig.registered(r.cid) != nil
 }
 
 // stepEnd ends the live connection and waits until the broker finished its teardown.
@@ -535,7 +541,7 @@ func (r *vfC16Run) stepEnd() {
 	// the read loop's deferred cleanup runs before handleConn closes the socket, except for the
 	// removal from Broker.clients, which follows: wait for it
 	deadline := time.Now().Add(vfMqWait)
-	for r.rig.registered(vfC16CID) != nil {
+	for r.rig.registered(r.cid) != nil {
 		if time.Now().After(deadline) {
 			r.violation("ended-connection-stays-registered", "the ended connection is still registered %v after the broker closed its socket", vfMqWait)
 			return
@@ -605,7 +611,7 @@ func (r *vfC16Run) verify() {
 		}
 		r.violation(key, "the broker closed the live connection %s", c.Label)
 		if td && r.abandon && !r.sess.clean {
-			if _, ok := r.rig.store.sessionTopics(vfC16CID); !ok {
+			if _, ok := r.rig.store.sessionTopics(r.cid); !ok {
 				r.violation(vfC16KeyTdStore, "the stored record of the live (non-clean) session is gone after the superseded connection's teardown")
 			}
 		}
@@ -613,16 +619,16 @@ func (r *vfC16Run) verify() {
 		return
 	}
 	// --- registration, session entry
-	bc := r.rig.registered(vfC16CID)
+	bc := r.rig.registered(r.cid)
 	if bc == nil || bc.conn.RemoteAddr().String() != c.LocalAddr() {
 		key := "live-connection-not-registered"
 		if r.tdNow() {
 			key = vfC16KeyTdUnreg
 		}
-		r.violation(key, "Broker.clients[%s] is not the live connection %s (registered: %v)", vfC16CID, c.Label, bc != nil)
+		r.violation(key, "Broker.clients[%s] is not the live connection %s (registered: %v)", r.cid, c.Label, bc != nil)
 	}
 	if bc != nil {
-		v, ok := r.rig.broker.sessMgr.sessionMap.Load(vfC16CID)
+		v, ok := r.rig.broker.sessMgr.sessionMap.Load(r.cid)
 		if !ok || v.(*Session) != bc.session {
 			key := "live-session-not-in-session-map"
 			if r.tdNow() {
@@ -632,7 +638,7 @@ func (r *vfC16Run) verify() {
 		}
 	}
 	// --- stored record
-	if stored, ok := r.rig.store.sessionTopics(vfC16CID); !ok {
+	if stored, ok := r.rig.store.sessionTopics(r.cid); !ok {
 		key := "session-record-missing"
 		if r.tdNow() {
 			key = vfC16KeyTdStore
@@ -653,8 +659,8 @@ func (r *vfC16Run) verify() {
 	}
 	sort.Strings(modelFilters)
 	for _, f := range modelFilters {
-		if !r.rig.routed(vfC16CID, vfC16Instance(f)) {
-			r.violation(r.lostKey(f), "filter %s of the live session is not routed to %s any more", f, vfC16CID)
+		if !r.rig.routed(r.cid, vfC16Instance(f)) {
+			r.violation(r.lostKey(f), "filter %s of the live session is not routed to %s any more", f, r.cid)
 			break
 		}
 	}
@@ -773,7 +779,7 @@ func vfC16SameTopics(stored map[string]int, model map[string]byte) bool {
 func (r *vfC16Run) stepAdminDelete() {
 	r.log("admin-delete")
 	r.vf.Class("step:admin-delete")
-	if code := r.rig.DeleteSessions(vfC16CID); code != 200 {
+	if code := r.rig.DeleteSessions(r.cid); code != 200 {
 		r.inconclusive("admin delete", fmt.Errorf("status %d", code))
 	}
 	// The delete event reaches the broker's watcher some time after the record was deleted. Until
@@ -793,7 +799,7 @@ func (r *vfC16Run) stepAdminDelete() {
 	if between > 0 {
 		r.log("(delete event delivered now)")
 		r.vf.Class("session-changed-between-admin-delete-and-its-event")
-		if _, ok := r.rig.store.sessionTopics(vfC16CID); ok {
+		if _, ok := r.rig.store.sessionTopics(r.cid); ok {
 			r.vf.Class("record-recreated-before-delete-event")
 		}
 	}
@@ -816,12 +822,27 @@ func (r *vfC16Run) stepAdminDelete() {
 		r.violation("admin-delete-did-not-disconnect-client", "connection %s is still served 20 s after its session was deleted through the admin endpoint", r.live.Label)
 		return
 	}
-	if bc := r.rig.registered(vfC16CID); bc != nil && bc.conn.RemoteAddr().String() == r.live.LocalAddr() {
+	if bc := r.rig.registered(r.cid); bc != nil && bc.conn.RemoteAddr().String() == r.live.LocalAddr() {
 		r.violation("admin-delete-left-client-registered", "connection %s was closed but is still registered after its session was deleted", r.live.Label)
 		return
 	}
 	r.vf.Class("admin-delete-disconnected-client")
+	if strings.Contains(r.cid, "/") {
+		r.vf.Class("admin-delete-disconnected-client-whose-id-contains-slash")
+	}
 	r.live = nil
+}
+
+// vfC16DrawID picks the script's client id with three unbiased bits.
+func vfC16DrawID(rt *rapid.T) string {
+	i := 0
+	for _, b := range rapid.SliceOfN(rapid.Bool(), 3, 3).Draw(rt, "idBits") {
+		i <<= 1
+		if b {
+			i |= 1
+		}
+	}
+	return vfC16IDs[i%len(vfC16IDs)]
 }
 
 func TestVerifC16Sessions(t *testing.T) {
@@ -834,6 +855,13 @@ func TestVerifC16Sessions(t *testing.T) {
 		}
 		defer rig.Close()
 		r := &vfC16Run{rt: rt, vf: vf, rig: rig, restored: map[string]bool{}, faults: map[*vfMqClient]*vfMqFaultConn{}}
+		r.cid = vfC16DrawID(rt)
+		r.log("id=%q", r.cid)
+		if strings.Contains(r.cid, "/") {
+			vf.Class("client-id-contains-slash")
+		} else {
+			vf.Class("client-id-without-slash")
+		}
 		nSteps := rapid.IntRange(3, 12).Draw(rt, "nSteps")
 		for r.steps = 0; r.steps < nSteps && !r.abandon; r.steps++ {
 			r.sweep()
